@@ -49,6 +49,8 @@ type Engine struct {
 	errConsts   map[*ssa.Global]string
 	modulePath  string
 	loopCache   map[*ssa.Function]*loopInfo
+	gconsts   map[*ssa.Global]*ssa.Const
+	guards    map[string]*guardInfo // "pkgpath.Type.field" -> guard
 	typedOnce map[string]bool
 	retCovers int
 	pdomCache map[*ssa.Function]*pdomInfo
@@ -58,6 +60,12 @@ type Engine struct {
 	axiomSMT    string
 	axiomCount  int
 	axiomErrors []string
+}
+
+type guardInfo struct {
+	mutexIdx int
+	tags     []string
+	typ      string
 }
 
 type pathResult struct {
@@ -155,7 +163,9 @@ func (st *State) operand(v ssa.Value) Val {
 	case *ssa.Const:
 		return st.constVal(x)
 	case *ssa.Global:
-		return Val{K: KAddr, T: st.e.globalAddr(x), Ty: x.Type(), NonNil: true}
+		a := st.e.globalAddr(x)
+		st.typeFact(a, x.Type())
+		return Val{K: KAddr, T: a, Ty: x.Type(), NonNil: true}
 	case *ssa.Function:
 		return Val{K: KFunc, Fn: x, Ty: x.Type()}
 	case *ssa.Builtin:
@@ -618,6 +628,10 @@ func (e *Engine) execInstr(st *State, instr ssa.Instruction) {
 					set(in, Val{K: KIface, T: c, NonNil: true})
 					break
 				}
+				if c, ok := e.globalConst(g); ok {
+					set(in, st.constVal(c))
+					break
+				}
 			}
 			if !x.NonNil {
 				st.guard("nil", sNot(sEq(x.T, "null")), in.Pos())
@@ -730,6 +744,19 @@ func (e *Engine) execInstr(st *State, instr ssa.Instruction) {
 			st.guard("nil", sNot(sEq(x.T, "null")), in.Pos())
 		}
 		set(in, Val{K: KAddr, T: "(fld " + x.T + " " + intLit(int64(in.Field)) + ")", Ty: in.Type(), Root: x.Root, NonNil: true})
+		if len(e.guards) > 0 {
+			if n := namedOf(in.X.Type()); n != nil && n.Obj().Pkg() != nil {
+				if stt, ok := n.Underlying().(*types.Struct); ok {
+					key := n.Obj().Pkg().Path() + "." + n.Obj().Name() + "." + stt.Field(in.Field).Name()
+					if g, ok := e.guards[key]; ok && x.Root == "" {
+						m := "(fld " + x.T + " " + intLit(int64(g.mutexIdx)) + ")"
+						goal := sOr("(select "+st.heap("G$held")+" "+m+")", "(> (select "+st.heap("G$rheld")+" "+m+") 0)")
+						st.addCheck(&Check{Name: fmt.Sprintf("%s.ghost.guard[%s.%s]@%s", e.curFunc, n.Obj().Name(), stt.Field(in.Field).Name(), shortPos(posStr(e, in.Pos()))), Kind: "ghost.guard", Goal: goal,
+							Pos: posStr(e, in.Pos()), Tags: g.tags, Func: e.curFunc, Clause: "guardedby " + g.typ})
+					}
+				}
+			}
+		}
 	case *ssa.Index:
 		x := st.operand(in.X)
 		i := st.operand(in.Index)
